@@ -74,6 +74,8 @@ var vC03Faults = []vFault{
 	{"annotated-path", "GET /ap/{x}\n  Path // note\n  {\"x\": 1}\n  200 any\n", "Path", jerr.AnnotationIsForbiddenForTheDirective, "", 3},
 	{"annotated-protocol", "URL /apr\n  Protocol json-rpc-2.0 // note\n  Method m\n    Params\n    {}\n", "Protocol", jerr.AnnotationIsForbiddenForTheDirective, "", 3},
 	{"annotated-params", "URL /apa\n  Protocol json-rpc-2.0\n  Method m\n    Params // note\n    {}\n", "Params", jerr.AnnotationIsForbiddenForTheDirective, "", 3},
+	{"annotated-result", "URL /are\n  Protocol json-rpc-2.0\n  Method m\n    Result // note\n    {}\n", "Result", jerr.AnnotationIsForbiddenForTheDirective, "", 3},
+	{"annotated-info", "INFO // note\n  Title \"x\"\n", "INFO", jerr.AnnotationIsForbiddenForTheDirective, "", 0},
 	{"annotated-macro", "MACRO @am // note\n(\n  404 any\n)\n", "MACRO @am", jerr.AnnotationIsForbiddenForTheDirective, "", 1},
 	{"annotated-paste", "GET /apx\n  200 any\n  PASTE @m // note\n", "PASTE @m", jerr.AnnotationIsForbiddenForTheDirective, "", 1},
 	{"annotated-operation-id", "GET /aoi\n  OperationId xx // note\n  200 any\n", "OperationId xx", jerr.AnnotationIsForbiddenForTheDirective, "", 3},
@@ -149,12 +151,12 @@ func HFault() {
 func init() { vRegister("HFault", HFault) }
 
 const vC03NamesBase = "JSIGHT 0.3\n" +
-	"SERVER @sv\n  BaseUrl \"https://h\"\n" +
-	"TAG @tg\n" +
-	"TYPE @ca any\n" +
-	"ENUM @en\n[1, 2]\n" +
-	"MACRO @mc\n(\n  404 any\n)\n" +
-	"GET /pa\n  OperationId op\n  200 any\n"
+	"SERVER @s_\n  BaseUrl \"https://h\"\n" +
+	"TAG @t_\n" +
+	"TYPE @c_ any\n" +
+	"ENUM @e_\n[1, 2]\n" +
+	"MACRO @m_\n(\n  404 any\n)\n" +
+	"GET /p_\n  OperationId o_\n  200 any\n"
 
 // HFaultNames (C03): a directive with a SYMBOLIC two-byte name is appended; it must
 // be rejected as a duplicate exactly when the name equals the existing name of its
@@ -162,24 +164,24 @@ const vC03NamesBase = "JSIGHT 0.3\n" +
 func HFaultNames() {
 	kind := vInt("kind", 0, 6)
 	x, y := vByte("x"), vByte("y")
-	vAssume(vIsAlnum(x) && vIsAlnum(y))
+	vAssume(vIsAlnum(x) && (vIsAlnum(y) || y == '_' || y == '-'))
 	name := string([]byte{x, y})
 	var text, existing, msg string
 	switch kind {
 	case 0:
-		text, existing, msg = "TYPE @"+name+" any\n", "ca", "has already been declared"
+		text, existing, msg = "TYPE @"+name+" any\n", "c_", "has already been declared"
 	case 1:
-		text, existing, msg = "ENUM @"+name+"\n[3]\n", "en", "has already been declared"
+		text, existing, msg = "ENUM @"+name+"\n[3]\n", "e_", "has already been declared"
 	case 2:
-		text, existing, msg = "SERVER @"+name+"\n  BaseUrl \"x\"\n", "sv", "has already been declared"
+		text, existing, msg = "SERVER @"+name+"\n  BaseUrl \"x\"\n", "s_", "has already been declared"
 	case 3:
-		text, existing, msg = "TAG @"+name+"\n", "tg", "has already been declared"
+		text, existing, msg = "TAG @"+name+"\n", "t_", "has already been declared"
 	case 4:
-		text, existing, msg = "MACRO @"+name+"\n(\n  500 any\n)\n", "mc", "has already been declared"
+		text, existing, msg = "MACRO @"+name+"\n(\n  500 any\n)\n", "m_", "has already been declared"
 	case 5:
-		text, existing, msg = "GET /q\n  OperationId "+name+"\n  200 any\n", "op", "has already been defined"
+		text, existing, msg = "GET /q\n  OperationId "+name+"\n  200 any\n", "o_", "has already been defined"
 	default:
-		text, existing, msg = "GET /"+name+"\n  200 any\n", "pa", "already been defined"
+		text, existing, msg = "GET /"+name+"\n  200 any\n", "p_", "already been defined"
 	}
 	root := vC03NamesBase + text
 	_, je := vBuildProject(root, nil)
